@@ -393,7 +393,8 @@ func CmdCheck(args []string) int {
 	ev.Coverage["bounds_note"] = spec.Bounds
 	ev.Coverage["outside_claim"] = spec.Outside
 	ev.Coverage["known_findings_reported"] = keys(knownPrinted)
-	ev.Coverage["explanation"] = "symbolic execution of the real code from go/ssa (regenerated from /repo on this run); every assertion is decided by the SMT solver for all values of the symbolic inputs on each path within the stated bounds"
+	ev.Coverage["explanation"] = fmt.Sprintf("symbolic execution of the real code from go/ssa (regenerated from /repo on this run): %d paths; a path is a feasible valuation class of the symbolic inputs and enumerated choices (feasibility of every branch side decided by the SMT solver: %d queries). Of %d assertion obligations, %d needed a solver query (path condition AND NOT assertion unsat) and %d simplified to true under the path's branch decisions; where both numbers of solver work are 0 the entry has no symbolic data and the exploration is an exhaustive enumeration of its choice points within the stated bounds",
+		totalPaths, solverQueries, assertsTotal, assertsSym, assertsTotal-assertsSym)
 	ev.Coverage["exhaustive"] = len(problems) == 0
 
 	code := 0
